@@ -113,7 +113,8 @@ def check_precision_change_keeps_compressed_side(ctx, F):
         if b.promoted is not None or '::tests' in b.defpath or b.self_adt != CHAIN or b.dk != 'AssocFn' or not (b.file or '').endswith('stream/chain.rs'):
             continue
         sig = b.raw.get('sig') or ''
-        m = re.match(r'(?:unsafe )?fn\(stream::chain::ChainCoder<([^()]*?)>\) -> core::result::Result<stream::chain::ChainCoder<(.*?)>, ', sig)
+        m = re.match(r'(?:unsafe )?fn\(stream::chain::ChainCoder<([^()]*?)>\) -> core::result::Result<stream::chain::ChainCoder<(.*?)>, ', sig) \
+            or re.match(r'(?:unsafe )?fn\(stream::chain::ChainCoder<([^()]*?)>\) -> stream::chain::ChainCoder<(.*)>$', sig)
         if not m or m.group(1) == m.group(2):
             continue
         try:
@@ -129,9 +130,9 @@ def check_precision_change_keeps_compressed_side(ctx, F):
         bad = None
         unres = None
         for r in paths:
-            if r.end != 'return' or r.ret is None or not (r.ret[0] == 'agg' and r.ret[1][0] == 'adt' and r.ret[1][2] == 'Ok'):
+            if r.end != 'return' or r.ret is None or not (r.ret[0] == 'agg' and isinstance(r.ret[1], tuple) and r.ret[1][0] == 'adt'):
                 continue
-            c = r.ret[2][0]
+            c = r.ret[2][0] if r.ret[1][2] == 'Ok' else r.ret          # the coder itself, or Ok(coder)
             if not (isinstance(c, tuple) and c and c[0] == 'agg' and c[1][0] == 'adt' and c[1][1] == CHAIN and len(c) > 3 and c[3]):
                 continue          # a forwarder: the callee is judged where it builds the coder
             built += 1
@@ -176,7 +177,10 @@ def check_precision_change_keeps_compressed_side(ctx, F):
             ctx.unresolved('R3', role, b.defpath, unres, key=key)
         else:
             ctx.ok('R3', role, b.defpath, '%d exit(s) build the new coder; `compressed` and `heads.compressed` are the old values (helpers in between write the remainders side only)' % built, key=key)
-    ctx.floor('R3', 'floor: functions that build a chain coder of another precision', CHAIN, n, 2, 'only %d found (increase / decrease on the reference tree)' % n, key='R3/floor/precision-change')
+    if n == 0:
+        ctx.unresolved('R3', 'floor: functions that build a chain coder of another precision', CHAIN, 'no function was found that builds a ChainCoder of another precision from one it takes by value', key='R3/floor/precision-change')
+    elif n < 2:
+        ctx.floor('R3', 'floor: functions that build a chain coder of another precision', CHAIN, n, 2, 'only %d found (increase / decrease on the reference tree)' % n, key='R3/floor/precision-change')
 
 
 def run(ctx):
